@@ -2712,6 +2712,12 @@ HMCreadChunk(int32  access_id, /* IN: access aid to mess with */
         bytes_read    = 0;
         bptr          = datap;
 
+        /* the chunk has to lie inside the chunk grid: an origin beyond it would be
+           folded into the number of another chunk */
+        for (i = 0; i < info->ndims; i++)
+            if (origin[i] < 0 || origin[i] >= info->ddims[i].num_chunks)
+                HGOTO_ERROR(DFE_ARGS, FAIL);
+
         /* copy origin over to seek chunk indices
            and set position within chunk to beginning of that chunk */
         for (i = 0; i < info->ndims; i++) {
@@ -3089,6 +3095,12 @@ HMCwriteChunk(int32       access_id, /* IN: access aid to mess with */
         write_len     = (info->chunk_size * info->nt_size);
         bytes_written = 0;
         bptr          = datap;
+
+        /* the chunk has to lie inside the chunk grid: an origin beyond it would be
+           folded into the number of another chunk */
+        for (i = 0; i < info->ndims; i++)
+            if (origin[i] < 0 || origin[i] >= info->ddims[i].num_chunks)
+                HGOTO_ERROR(DFE_ARGS, FAIL);
 
         /* copy origin over to seek chunk indices
            and set position within chunk to beginning of that chunk */
